@@ -180,3 +180,129 @@ Proof.
   { intros m. apply vdot_zero_l. intros i. rewrite nthq_vsub by auto. rewrite Ref. lra. }
   rewrite !Z. lra.
 Qed.
+
+(* ====================================================================================== *)
+(* conversions are shared: after any history of assignments every member of the object carries
+   the entry of the one conversions array that every handle reads                           *)
+Lemma write_range_length xs : forall off v, length (write_range off xs v) = length v.
+Proof. induction xs as [|x t IH]; intros off v; simpl; auto. rewrite IH. apply upd_length. Qed.
+
+Lemma xrun_length ops : forall v, length (xrun v ops) = length v.
+Proof.
+  unfold xrun. induction ops as [|o t IH]; intros v; simpl; auto. rewrite IH.
+  destruct o; simpl; [apply upd_length|apply write_range_length].
+Qed.
+
+Lemma take_set_spec s l : (length (set_members s) <= length l)%nat ->
+  set_members (fst (take_set s l)) = firstn (length (set_members s)) l /\
+  snd (take_set s l) = skipn (length (set_members s)) l.
+Proof.
+  destruct s as [r|rs|rs]; simpl; intros L; auto.
+  destruct l as [|x t]; simpl in *; [lia|]. auto.
+Qed.
+
+Lemma take_parts_flat ps : forall l,
+  length (concat (map (fun p => set_members (snd p)) ps)) = length l ->
+  concat (map (fun p => set_members (snd p)) (take_parts ps l)) = l.
+Proof.
+  induction ps as [|[b s] t IH]; intros l L; simpl in *.
+  - destruct l; [reflexivity|discriminate].
+  - rewrite app_length in L.
+    destruct (take_set_spec s l) as (A & B); [lia|].
+    destruct (take_set s l) as [s' l'] eqn:E. simpl in *. rewrite A, B. rewrite IH.
+    + apply firstn_skipn.
+    + rewrite skipn_length. lia.
+Qed.
+
+Lemma flat_rebuild o l : length l = length (flat_members o) -> flat_members (rebuild o l) = l.
+Proof.
+  destruct o as [b s|b ps]; simpl; intros L.
+  - destruct (take_set_spec s l) as (A & _); [lia|]. rewrite A, <- L. apply firstn_all.
+  - apply take_parts_flat. auto.
+Qed.
+
+Lemma xhist_members_lemma o ops :
+  flat_members (apply_xhist o ops) = map2 set_X (flat_members o) (xrun (map X (flat_members o)) ops).
+Proof.
+  unfold apply_xhist, set_Xs. apply flat_rebuild.
+  apply map2_length. rewrite xrun_length, map_length. reflexivity.
+Qed.
+
+Lemma nth_map2_set_X : forall (l : list rxn) (xs : vec) k r, length l = length xs ->
+  nth_error (map2 set_X l xs) k = Some r ->
+  exists r0, nth_error l k = Some r0 /\ X r = nthq xs k /\ st r = st r0 /\ ridx r = ridx r0 /\
+             wt r = wt r0 /\ phases r = phases r0.
+Proof.
+  induction l as [|a l IH]; intros [|x xs] k r L H; simpl in *; try discriminate.
+  - destruct k; discriminate.
+  - destruct k as [|k]; simpl in *.
+    + inversion H; subst. exists a. repeat split; reflexivity.
+    + destruct (IH xs k r) as (r0 & A & B); auto. exists r0. split; auto.
+Qed.
+
+Lemma xhist_member_lemma o ops k r : nth_error (flat_members (apply_xhist o ops)) k = Some r ->
+  exists r0, nth_error (flat_members o) k = Some r0 /\
+    X r = nthq (xrun (map X (flat_members o)) ops) k /\
+    st r = st r0 /\ ridx r = ridx r0 /\ wt r = wt r0 /\ phases r = phases r0.
+Proof.
+  rewrite xhist_members_lemma. apply nth_map2_set_X.
+  rewrite xrun_length, map_length. reflexivity.
+Qed.
+
+(* ---------- heat released by sets: the sum of the members' heats of reaction times what each was fed ---------- *)
+Definition heat_parallel (hf feed : vec) (rs : list rxn) : Q :=
+  fold_right (fun r acc => X r * vdot hf (st r) * nthq feed (ridx r) + acc) 0 rs.
+Fixpoint heat_series (hf : vec) (rs : list rxn) (m : vec) : Q :=
+  match rs with
+  | [] => 0
+  | r :: t => X r * vdot hf (st r) * nthq m (ridx r) + heat_series hf t (react r m)
+  end.
+
+Lemma parallel_dot hf feed rs : forall m, Forall (wf (length m)) rs ->
+  vdot hf (react_parallel_from feed rs m) == vdot hf m + heat_parallel hf feed rs.
+Proof.
+  induction rs as [|r rs IH]; intros m W; simpl; [lra|].
+  inversion W as [|? ? Wr Wrs]; subst.
+  assert (L : length (vadd m (vscale (nthq feed (ridx r) * X r) (st r))) = length m).
+  { apply vadd_length. rewrite vscale_length. symmetry; exact Wr. }
+  rewrite IH by (rewrite L; exact Wrs).
+  rewrite vdot_vadd, vdot_vscale; [ring|]. rewrite vscale_length. symmetry; exact Wr.
+Qed.
+
+Lemma series_dot hf rs : forall m, Forall (wf (length m)) rs ->
+  vdot hf (react_series rs m) == vdot hf m + heat_series hf rs m.
+Proof.
+  induction rs as [|r rs IH]; intros m W; simpl; [unfold react_series; simpl; lra|].
+  inversion W as [|? ? Wr Wrs]; subst. unfold react_series in *. simpl.
+  rewrite IH by (rewrite react_length; auto). rewrite react_dot by exact Wr. ring.
+Qed.
+
+Lemma isothermal_parallel_lemma Hfun hf hs w rs s s' :
+  (forall m T, Hfun m T == vdot (hs T) m) ->
+  Forall (wf (length (smol s))) rs -> nonneg (react_parallel rs (smol s)) ->
+  isothermal w (Simple false (Parallel rs)) s = (None, s') ->
+  Hnet Hfun hf s' - Hnet Hfun hf s ==
+    heat_parallel hf (smol s) rs + (vdot (hs (sT s)) (smol s') - vdot (hs (sT s)) (smol s)).
+Proof.
+  intros HL W Nn I.
+  destruct (isothermal_any_lemma Hfun hf hs HL w _ s s' I) as (_ & E). rewrite E. clear E.
+  unfold isothermal, call_stream in I. simpl in I. unfold process in I. simpl in I.
+  destruct (qltb (neg_sum (react_parallel rs (smol s))) (- eps)); [discriminate|].
+  inversion I; subst. simpl. rewrite (clampv_id _ Nn).
+  unfold react_parallel. rewrite parallel_dot by exact W. ring.
+Qed.
+
+Lemma isothermal_series_lemma Hfun hf hs w rs s s' :
+  (forall m T, Hfun m T == vdot (hs T) m) ->
+  Forall (wf (length (smol s))) rs -> nonneg (react_series rs (smol s)) ->
+  isothermal w (Simple false (Series rs)) s = (None, s') ->
+  Hnet Hfun hf s' - Hnet Hfun hf s ==
+    heat_series hf rs (smol s) + (vdot (hs (sT s)) (smol s') - vdot (hs (sT s)) (smol s)).
+Proof.
+  intros HL W Nn I.
+  destruct (isothermal_any_lemma Hfun hf hs HL w _ s s' I) as (_ & E). rewrite E. clear E.
+  unfold isothermal, call_stream in I. simpl in I. unfold process in I. simpl in I.
+  destruct (qltb (neg_sum (react_series rs (smol s))) (- eps)); [discriminate|].
+  inversion I; subst. simpl. rewrite (clampv_id _ Nn).
+  rewrite series_dot by exact W. ring.
+Qed.
